@@ -2,7 +2,7 @@
    Only statements, [exact], and Print Assumptions live here.
    What these theorems cover: (1) every order-relevant set-iteration site inventoried by the translator
    (Gen/T_C09.v) is permutation invariant (full since the fix of F09a); (2) the diff decision of the
-   non-force path; (3) agreement of the force path with the temp-dir path, and the rerun corollary.
+   non-force path; (3) agreement of the force path with the temp-dir path, and the rerun corollary (full since the fixes of F09c/F09d).
    NOT covered by any theorem: byte-level determinism of the whole generator (the model's emitters are
    functions, hidden state cannot show up in it) — that part is the differential oracle of prop_C09.py. *)
 From PG Require Import Lib.Strs Model.Sites Model.Diff Proofs.Sites Proofs.Diff.
@@ -16,6 +16,15 @@ From Coq Require Import Permutation.
 Theorem C09_sites_full : forall m, In m order_relevant_models -> site_obligation m.
 Proof. exact sites_full. Qed.
 Print Assumptions C09_sites_full.
+
+(* file-system order: _show_diffs walks both trees with rglob(); its decision and the set of files it names are
+   the same for every order in which the file system lists the entries *)
+Theorem C09_fs_order_full : forall old old' new new',
+  wf_tree old = true -> Permutation old old' -> Permutation new new' ->
+  show_diffs old new = show_diffs old' new' /\
+  Permutation (differing_g str_eqb old new) (differing_g str_eqb old' new').
+Proof. exact show_diffs_fs_order. Qed.
+Print Assumptions C09_fs_order_full.
 
 (* the formerly refuted site: whatever order the set of path variables is iterated in, the signature is the same *)
 Theorem C09_site1_full : forall san ps template l1 l2,
@@ -75,32 +84,34 @@ Proof. exact refuted_F09g. Qed.
 Print Assumptions C09_refuted_F09g.
 
 (* ---------------------------------------------------------------- (3) the two code paths *)
-(* C09_modes_agree, full statement (FALSE: F09c, F09d; F09e is fixed; [dedup_total] is fuel adequacy of the
-   model's suffix search, true whenever the real loop terminates):
-     forall san g found, tree_force san g found = tree_temp san g. *)
-Theorem C09_modes_agree_partial : forall san g found,
-  guard_modes g found = true -> dedup_total san g = true -> tree_force san g found = tree_temp san g.
-Proof. exact modes_agree_partial. Qed.
-Print Assumptions C09_modes_agree_partial.
+(* FULL since the fixes of F09c (rich __init__.py written on both paths) and F09d (the temp path starts from the
+   existing registry): what the force path writes is what the temp-dir path regenerates from the state that force
+   run left behind.  [dedup_total] is fuel adequacy of the model's suffix search (true whenever the real loop
+   terminates), [wf_layout] excludes core_package = output package (two __init__.py on one path); neither is a finding. *)
+Theorem C09_modes_agree_full : forall san g found,
+  dedup_total san g = true ->
+  tree_force san g found = tree_temp san g (existing_registry g (tree_force san g found)).
+Proof. exact modes_agree. Qed.
+Print Assumptions C09_modes_agree_full.
 
 (* generate(force); generate(no force): succeeds and leaves the file system as it was *)
-Theorem C09_rerun_partial : forall san g found,
-  guard_modes g found = true -> dedup_total san g = true -> wf_layout san g = true ->
+Theorem C09_rerun_full : forall san g found,
+  dedup_total san g = true -> wf_layout san g = true ->
   run_noforce san g (tree_force san g found) = (ROk, tree_force san g found).
-Proof. exact rerun_partial. Qed.
-Print Assumptions C09_rerun_partial.
+Proof. exact rerun_full. Qed.
+Print Assumptions C09_rerun_full.
 
 (* conversely a *.py file present on both sides whose text is not what would be generated now makes the
    non-force run fail (for ANY existing tree) *)
 Theorem C09_rerun_detects : forall san g existing p c c',
-  In (p, c) (under (g_out g) (tree_temp san g)) -> is_py p = true ->
+  In (p, c) (under (g_out g) (tree_temp san g (existing_registry g existing))) -> is_py p = true ->
   tlookup p (under (g_out g) existing) = Some c' -> c' <> c ->
   fst (run_noforce san g existing) = RDifferences.
 Proof. exact rerun_detects. Qed.
 Print Assumptions C09_rerun_detects.
 
 Theorem C09_rerun_detects_missing : forall san g existing p c,
-  In (p, c) (under (g_out g) (tree_temp san g)) -> is_py p = true ->
+  In (p, c) (under (g_out g) (tree_temp san g (existing_registry g existing))) -> is_py p = true ->
   tlookup p (under (g_out g) existing) = None ->
   fst (run_noforce san g existing) = RDifferences.
 Proof. exact rerun_detects_missing. Qed.
@@ -108,30 +119,29 @@ Print Assumptions C09_rerun_detects_missing.
 
 Theorem C09_rerun_detects_stale : forall san g existing p c,
   In (p, c) (under (g_out g) existing) -> is_py p = true ->
-  tlookup p (under (g_out g) (tree_temp san g)) = None ->
+  tlookup p (under (g_out g) (tree_temp san g (existing_registry g existing))) = None ->
   fst (run_noforce san g existing) = RDifferences.
 Proof. exact rerun_detects_stale. Qed.
 Print Assumptions C09_rerun_detects_stale.
 
-Theorem C09_refuted_F09c :
-  guard_F09c g_F09c = false /\ guard_F09d g_F09c [] = true /\
-  tree_force Proofs.Diff.idS g_F09c [] <> tree_temp Proofs.Diff.idS g_F09c /\
-  fst (run_noforce Proofs.Diff.idS g_F09c (tree_force Proofs.Diff.idS g_F09c [])) = RDifferences.
-Proof. exact refuted_F09c. Qed.
-Print Assumptions C09_refuted_F09c.
-
-Theorem C09_refuted_F09d :
-  guard_F09c g_F09d = true /\ guard_F09d g_F09d found_F09d = false /\
-  tree_force Proofs.Diff.idS g_F09d found_F09d <> tree_temp Proofs.Diff.idS g_F09d /\
-  fst (run_noforce Proofs.Diff.idS g_F09d (tree_force Proofs.Diff.idS g_F09d found_F09d)) = RDifferences.
-Proof. exact refuted_F09d. Qed.
-Print Assumptions C09_refuted_F09d.
+Theorem C09_regression_F09c_F09d :
+  tree_force Proofs.Diff.idS g_F09c [] = tree_temp Proofs.Diff.idS g_F09c (existing_registry g_F09c (tree_force Proofs.Diff.idS g_F09c [])) /\
+  tlookup [s_client; s_init] (tree_temp Proofs.Diff.idS g_F09c []) = Some (CRichInit s_client) /\
+  fst (run_noforce Proofs.Diff.idS g_F09c (tree_force Proofs.Diff.idS g_F09c [])) = ROk /\
+  existing_registry g_F09d (tree_force Proofs.Diff.idS g_F09d found_F09d) = [(s_cb, [409]); (s_ca, [404])] /\
+  tlookup [s_shared; s_core; s_aliases_py] (tree_force Proofs.Diff.idS g_F09d found_F09d) = Some (CAliases [404; 409]) /\
+  tree_force Proofs.Diff.idS g_F09d found_F09d =
+    tree_temp Proofs.Diff.idS g_F09d (existing_registry g_F09d (tree_force Proofs.Diff.idS g_F09d found_F09d)) /\
+  fst (run_noforce Proofs.Diff.idS g_F09d (tree_force Proofs.Diff.idS g_F09d found_F09d)) = ROk.
+Proof. exact regression_F09c_F09d. Qed.
+Print Assumptions C09_regression_F09c_F09d.
 
 Theorem C09_regression_F09e :
   dedup_ops Proofs.Diff.idS [s_foo; s_foo; s_foo_2] = [s_foo; s_foo_2; s_foo_2 ++ [95;50]] /\
   dedup_ops Proofs.Diff.idS (dedup_ops Proofs.Diff.idS [s_foo; s_foo; s_foo_2]) = dedup_ops Proofs.Diff.idS [s_foo; s_foo; s_foo_2] /\
-  guard_modes g_F09e [] = true /\ dedup_total Proofs.Diff.idS g_F09e = true /\
-  tree_force Proofs.Diff.idS g_F09e [] = tree_temp Proofs.Diff.idS g_F09e /\
+  dedup_total Proofs.Diff.idS g_F09e = true /\
+  tree_force Proofs.Diff.idS g_F09e [] =
+    tree_temp Proofs.Diff.idS g_F09e (existing_registry g_F09e (tree_force Proofs.Diff.idS g_F09e [])) /\
   fst (run_noforce Proofs.Diff.idS g_F09e (tree_force Proofs.Diff.idS g_F09e [])) = ROk.
 Proof. exact regression_F09e. Qed.
 Print Assumptions C09_regression_F09e.
@@ -144,10 +154,10 @@ Theorem C09_guard_nonvacuous :
   (guard_F09g new_F09b new_F09b = true /\ show_diffs new_F09b new_F09b = false /\
    guard_F09g old_F09b [(p_client, t_a1 ++ t_a1); (p_stale, t_a1)] = true /\
    show_diffs old_F09b [(p_client, t_a1 ++ t_a1); (p_stale, t_a1)] = true) /\
-  (guard_modes g_plain [(s_client, [400])] = true /\ dedup_total Proofs.Diff.idS g_plain = true /\
-   wf_layout Proofs.Diff.idS g_plain = true /\
-   length (tree_force Proofs.Diff.idS g_plain []) = 15%nat).
+  (dedup_total Proofs.Diff.idS g_plain = true /\ wf_layout Proofs.Diff.idS g_plain = true /\
+   length (tree_force Proofs.Diff.idS g_plain []) = 15%nat /\
+   dedup_total Proofs.Diff.idS g_F09d = true /\ wf_layout Proofs.Diff.idS g_F09d = true).
 Proof.
-  exact (conj site2_nonvacuous (conj guard_diff_nonvacuous guard_modes_nonvacuous)).
+  exact (conj site2_nonvacuous (conj guard_diff_nonvacuous modes_nonvacuous)).
 Qed.
 Print Assumptions C09_guard_nonvacuous.
